@@ -26,7 +26,7 @@ def fnv(bs):
 
 def oracle(seq_ops, impl):
     """stream oracle applied to the implementation's replies of one sequence; returns index of first violation or None"""
-    kind = None; dc = 0; pending = []; submitted = []
+    kind = None; dc = 0; pending = []; submitted = []; lastL = 0
     for i, (o, r) in enumerate(zip(seq_ops, impl)):
         t = o.split()
         if t[0] == 'seq': continue
@@ -36,6 +36,11 @@ def oracle(seq_ops, impl):
         f = dict(x.split('=') for x in dump.split() if '=' in x)
         if kind == 'zr':
             opn = t[2]
+            # every byte the source produced must stay readable: a read of no more than what is buffered cannot fail
+            if res.startswith('fail') and opn in ('next', 'peek', 'skip', 'rbin', 'rstr', 'rbyte'):
+                need = 1 if opn == 'rbyte' else int(t[3])
+                if need <= lastL:
+                    return i, '%s(%d) failed with "%s" although %d bytes the source produced are buffered' % (opn, need, res, lastL)
             if res.startswith('ok b:') and opn in ('next', 'rbin', 'rstr', 'rbyte', 'until'):
                 _, ln, h = res.split(':'); ln = int(ln)
                 want = fnv([gen_byte(5, dc + k) for k in range(ln)])
@@ -49,6 +54,7 @@ def oracle(seq_ops, impl):
             if 'pos' in f and int(f['pos']) != dc + int(f['L']):
                 return i, 'pulled (%s) != delivered (%d) + buffered (%s)' % (f['pos'], dc, f['L'])
             if int(f.get('M', 0)) != 0: return i, 'pending bytes left in the reader buffer'
+            lastL = int(f.get('L', 0))
         elif kind == 'zw':
             opn = t[2]
             if opn == 'mal' and int(t[3]) > 0: pending += [gen_byte(int(t[4]), k) for k in range(int(t[3]))]
@@ -129,8 +135,8 @@ def run(rep):
     changed = [n for n, f in cur.items() if f['file'] == 'nocopy_readwriter.go' and exp.get(n) != f['hash']]
     escalate = bool(changed) or proof_broken is not None
     if changed: rep.notes.append('mirrored functions changed (budget escalated): ' + ', '.join(changed))
-    shards, seqs, nops = (16, 4000, 60) if rep.tier == 'thorough' else (8, 400, 40)
-    if escalate: seqs *= 5
+    shards, seqs, nops = (16, 3000, 60) if rep.tier == "thorough" else (8, 250, 40)
+    if escalate: seqs *= 2
     problems = []
     import glob
     for f in sorted(glob.glob(os.path.join(common.VERIF, 'corpus', PROP, '*.ops'))):
